@@ -5,6 +5,15 @@ from fractions import Fraction as Fr
 from absint import *
 
 
+class KDTreeV(V):
+    """scipy.spatial.KDTree built over points whose coordinates have dimension d"""
+    def __init__(self, d):
+        self.d = d
+
+    def __repr__(self):
+        return f"KDTree[{self.d!r}]"
+
+
 class D(V):
     """numeric array/scalar with physical dimension L^l X^x M^m.
     poly: dimension-polymorphic zero/uninitialised (np.zeros, literal 0, np.empty, nan)
@@ -544,6 +553,14 @@ class DimDomain:
 
     # -------------------------------------------------- calls
     def method(self, recv, name, args, kwargs, node):
+        if isinstance(recv, KDTreeV):
+            # SciPy k-d tree over points of dimension recv.d: a query radius / distance bound is a length of the same unit
+            if name in ("query_ball_point", "query_ball_tree", "query_pairs", "count_neighbors"):
+                r = kwargs.get("r", args[1] if len(args) > 1 else (args[0] if name == "query_pairs" and args else None))
+                if isinstance(r, D) and not r.poly and not getattr(r, "isint", False) and isinstance(recv.d, D) and tuple(r.dim) != tuple(recv.d.dim):
+                    self.report("cmp-mismatch", node, f"k-d tree over {recv.d!r} queried with a radius of {r!r}")
+                raise Unsupported(node, "k-d tree query result (index lists) is outside the typed fragment")
+            raise Unsupported(node, f"KDTree.{name}")
         if name in ("astype", "copy", "reshape", "flatten", "swapaxes", "squeeze", "ravel", "sum", "max",
                     "min", "mean", "transpose", "cumsum"):
             if isinstance(recv, Seq):
@@ -576,6 +593,9 @@ class DimDomain:
         return [v]
 
     def call_external(self, q, args, kwargs, node):
+        if q.split(".")[-1] in ("KDTree", "cKDTree") and args:
+            d0 = args[0] if isinstance(args[0], D) else (self.collapse(args[0], node) if isinstance(args[0], Seq) else None)
+            return KDTreeV(d0)
         base = q.split(".")[-1]
         mod = q.rsplit(".", 1)[0]
         if q in self.summaries:
